@@ -239,6 +239,11 @@ func gen(t *rapid.T) Case {
 	if h.Thorough() {
 		depth = rapid.IntRange(3, 5).Draw(t, "depth")
 	}
+	if version == 2 {
+		// the v2 model reaches operations one level later than the v3 model: without the extra level
+		// v2 operations never carry parameters, security or externalDocs
+		depth++
+	}
 	doc := g.Document(depth)
 	normal := true
 	if rapid.IntRange(0, 4).Draw(t, "nonnormal") == 0 {
